@@ -5,7 +5,7 @@ D="$1"; WT=$(mktemp -d /tmp/vpseed.XXXXXX); OV=$WT.ov
 git -C /repo worktree add --detach "$WT" HEAD >/dev/null 2>&1 || { echo '{"error":"worktree"}'; exit 2; }
 cleanup() { git -C /repo worktree remove --force "$WT" >/dev/null 2>&1; rm -rf "$OV" "$WT"; }
 trap cleanup EXIT
-run_tests() { (cd "$WT" && PYTHONPATH="$OV" timeout 900 /venv/bin/python -m pytest -q -p no:cacheprovider tests 2>&1 | grep -E "passed|failed|error" | tail -1); }
+run_tests() { (cd "$WT" && PYTHONPATH="$OV" timeout 900 /venv/bin/python -m pytest -o addopts="" -q -p no:cacheprovider tests 2>&1 | grep -E "passed|failed|error" | tail -1); }
 run_demo() { (cd "$D" && PYTHONPATH="$OV" timeout 600 /venv/bin/python demo.py >/dev/null 2>&1; echo $?); }
 /verif/tools/build_overlay.sh "$OV" "$WT" >/dev/null 2>&1 || { echo '{"error":"clean build"}'; exit 2; }
 CT=$(run_tests); CD=$(run_demo)
